@@ -289,7 +289,8 @@ def batch_remove(L: Layout, removals: Sequence[Tuple[int, AOp]]) -> Layout:
             raise ModelRaises(("IndexError",), "moment that doesn't exist")
         if not any(o.uid == op.uid for o in new[i]):
             raise ModelRaises(("ValueError",), "operation not present")
-        new[i] = [o for o in new[i] if o.uid != op.uid]
+        first = next(x for x, o in enumerate(new[i]) if o.uid == op.uid)
+        del new[i][first]          # one entry removes one operation
     return new
 
 
@@ -300,7 +301,8 @@ def batch_replace(L: Layout, repl: Sequence[Tuple[int, AOp, AOp]]) -> Layout:
             raise ModelRaises(("IndexError",), "moment that doesn't exist")
         if not any(o.uid == old.uid for o in new[i]):
             raise ModelRaises(("ValueError",), "operation not present")
-        new[i] = [newop if o.uid == old.uid else o for o in new[i]]
+        first = next(x for x, o in enumerate(new[i]) if o.uid == old.uid)
+        new[i][first] = newop
         if overlap_in(new[i]):
             raise ModelRaises(("ValueError",), "replacement overlaps")
     return new
@@ -363,6 +365,10 @@ def batch_insert_exact(L: Layout, insertions: Sequence[Tuple[int, object]],
     """
     cur = copy_layout(L)
     shift = 0
+    n0 = len(L)
+    # a negative index means what it means for insert(): counted from the end of the circuit
+    # as it is before the call
+    insertions = [(clamp_index(n0, i), item) for i, item in insertions]
     for e, (i, item) in enumerate(sorted(insertions, key=lambda e: e[0])):
         at = i + shift
         before = len(cur)
@@ -514,7 +520,7 @@ def conservation(before: Sequence[str], after: Sequence[str], added: Sequence[st
 
 
 def check_insert_multi(L: Layout, N: Layout, index: int, items: Sequence, strategy: str,
-                       returned: Optional[int], key_strict: bool = True) -> List[Problem]:
+                       returned: Optional[int], key_strict: bool = True, exempt: bool = True) -> List[Problem]:
     """Constraints the property states for an insert of several operations / moments.
 
     membership is checked by the caller (conservation).  Here: existing operations keep their
@@ -527,12 +533,12 @@ def check_insert_multi(L: Layout, N: Layout, index: int, items: Sequence, strate
     ins_ops = flatten_items(items)
     inserted = frozenset(o.uid for o in ins_ops)
     return _first_clean(L, N, inserted,
-                        lambda al: _insert_multi_aligned(L, N, index, items, strategy, returned, key_strict, al),
+                        lambda al: _insert_multi_aligned(L, N, index, items, strategy, returned, key_strict, al, exempt),
                         k=clamp_index(len(L), index))
 
 
 def _insert_multi_aligned(L: Layout, N: Layout, index: int, items: Sequence, strategy: str,
-                          returned: Optional[int], key_strict: bool, al: List[int]) -> List[Problem]:
+                          returned: Optional[int], key_strict: bool, al: List[int], exempt: bool = True) -> List[Problem]:
     out: List[Problem] = []
     n = len(L)
     k = clamp_index(n, index)
@@ -551,7 +557,8 @@ def _insert_multi_aligned(L: Layout, N: Layout, index: int, items: Sequence, str
     # the moment at the insertion point (and thereby push the later ones further); read in the
     # weakest way, the "before everything after the insertion point" clause is not asserted then
     several = len(items) > 1
-    exempt_after = strategy == EARLIEST and several and k < n
+    spill = strategy == EARLIEST and several and k < n
+    exempt_after = spill and exempt
     n_moment_items = 0
     for it in items:
         if isinstance(it, MMoment):
@@ -596,7 +603,9 @@ def _insert_multi_aligned(L: Layout, N: Layout, index: int, items: Sequence, str
                         out.append(("C05-ORDER", f"inserted {x.describe()} (moment {jx}) is not after conflicting "
                                                  f"{y.describe()} (moment {jy}) that was before the insertion point"))
                 elif not exempt_after:
-                    bad = jx > jy or (strict and jx == jy)
+                    # (strict reading of the exemption: the operations may *share* the moment at the
+                    # insertion point, nothing more)
+                    bad = jx > jy or (strict and jx == jy and not (spill and i == k and not q))
                     if bad:
                         out.append(("C05-ORDER", f"inserted {x.describe()} (moment {jx}) is not before conflicting "
                                                  f"{y.describe()} (moment {jy}) that was after the insertion point"))
